@@ -16,7 +16,7 @@ REPRS = [None, None, "u8", "i8", "u16", "i32", "u64", "isize", "align(8), u8", "
 
 
 def build(r, name, n=None, generics=None):
-    n = n or r.choice([1, 1, 2, 3, 4, 5, 7])
+    n = n or (r.choice([1, 1, 2, 3, 4, 5, 7]) if r.random() > 0.01 else 35)
     repr_ = r.choice(REPRS)
     int_repr = None if repr_ in (None, "C") else repr_.split(",")[-1].strip()
     fieldless = r.random() < 0.35
